@@ -503,7 +503,7 @@ func (w *World) callMods(pkg *packages.Package, c *Ctx, call *ast.CallExpr, ms *
 		}
 	}
 	sig := fn.Type().(*types.Signature)
-	if sp, ok := w.Specs[key]; ok && sp.Flags["countresult"] != "" {
+	if sp, ok := w.Specs[key]; ok && (sp.Flags["countresult"] != "" || sp.Flags["countcalls"] != "") {
 		ms.heaps["NRT"] = true
 	}
 	if sp, ok := w.Specs[key]; ok && sp.Flags["lockeffect"] != "" {
